@@ -169,9 +169,11 @@ def run(res):
         for k, mo in enumerate(model):
             if mo == "unmodelled":
                 continue
-            modelled += 1
             io = impl[eidx[k]].split()
-            want = "ok " + io[1] if io[0] == "ok" else "err " + io[1]
+            if io[0] != "ok":
+                continue          # refused by strict validation (C13's subject) or by the encoder: only accepted calls are compared
+            modelled += 1
+            want = "ok " + io[1]
             if mo != want:
                 diffs.append((eidx[k], mo, want))
 
@@ -221,17 +223,17 @@ def run(res):
             i, m = min(items, key=lambda t: len(emits[t[0]]))
             res.violation("bytes do not decode to the call: `emit %s` -> %s ; monitor: %s (%d such calls, db form %s)" % (
                 emits[i], impl[i], m, len(items), meta[i].get("opcodeString")), {"ops": ["emit " + emits[i]], "impl": impl[i], "monitor": m}, True, key=k)
-    if not bad and not aborts and not state_bad:
+    badset = {i for i, _ in bad}
+    diffs = [d for d in diffs if d[0] not in badset]
+    if True:
         if diffs:
             i, mo, want = diffs[0]
             res.violation("correspondence model/implementation differs at `emit %s`: impl=%s model=%s (%d differing calls); the monitor accepts every "
                           "explored encoding" % (emits[i], want, mo, len(diffs)),
                           {"ops": ["emit " + emits[i]], "impl": want, "model": mo, "unchecked": "correspondence Model/X86Front.lean+X86Backend.lean ~ x86assembler.cpp"},
                           False, key="corr")
-        elif broken:
+        elif broken and not bad and not aborts:
             res.violation("proof obligation no longer checks: " + " | ".join(broken)[:1500], {"unchecked": broken}, False, key="obligation")
-    elif diffs:
-        res.notes.append("correspondence also differs on %d calls, first: emit %s impl=%s model=%s" % (len(diffs), emits[diffs[0][0]], diffs[0][2], diffs[0][1]))
 
 
 def oracle_crosscheck(res, emits, impl, mon, cidx):
